@@ -8,6 +8,7 @@ import (
 
 	cluster "github.com/envoyproxy/go-control-plane/envoy/config/cluster/v3"
 	route "github.com/envoyproxy/go-control-plane/envoy/config/route/v3"
+	tcpproxy "github.com/envoyproxy/go-control-plane/envoy/extensions/filters/network/tcp_proxy/v3"
 
 	"istio.io/istio/pilot/pkg/features"
 	"istio.io/istio/pilot/pkg/model"
@@ -89,7 +90,7 @@ func (w *world) routeVirtualHosts(p *model.Proxy, withDomains bool) []string {
 	return out
 }
 
-var edsPorts = []int{80, 81, 8080, 9090}
+var edsPorts = []int{80, 81, 8080, 9090, 8443}
 
 // edsAnswers: what the real EDS generator (endpoints.EndpointBuilder) answers to this proxy for the
 // cluster outbound|port||hostname of EVERY hostname of the mesh - also the ones outside its scope -
@@ -201,11 +202,15 @@ func (w *world) oracleRouter(ns string) string {
 // rebuilt, its gateway destination index only exists under the flag); called last for a case.
 func (w *world) oracleRouterFiltered(nss []string) string {
 	defer func(v bool) { features.FilterGatewayClusterConfig = v }(features.FilterGatewayClusterConfig)
+	defer func(v bool) { features.ScopeGatewayToNamespace = v }(features.ScopeGatewayToNamespace)
 	features.FilterGatewayClusterConfig = true
-	w.build()
-	for _, ns := range nss {
-		if v := w.oracleRouter(ns); v != "" {
-			return "filtered-" + v
+	for _, scoped := range []bool{false, true} {
+		features.ScopeGatewayToNamespace = scoped
+		w.build()
+		for _, ns := range nss {
+			if v := w.oracleRouter(ns); v != "" {
+				return "filtered-" + v
+			}
 		}
 	}
 	return ""
@@ -399,5 +404,177 @@ func (w *world) oracleXDS(ns string, lbl map[string]string) string {
 	if v := w.oracleEDS(p, ns); v != "" {
 		return v
 	}
+	if v := w.oraclePerListener(p, ns, w.expectedSidecar(ns, lbl)); v != "" {
+		return v
+	}
 	return w.oracleListeners(p, ns, w.expectedSidecar(ns, lbl))
+}
+
+// listenerView: what one egress listener of the scope may show to Envoy: the hostnames (and kept
+// aliases) of its own services, and the hosts / destination hosts of the VirtualServices its
+// documented host list imports (exported to ns, bound to the mesh gateway).
+type listenerView struct {
+	hosts map[string]bool // service hostnames and alias hostnames
+	vs    map[string]bool // VirtualService hosts
+	dests map[string]bool // VirtualService destination hosts
+}
+
+func (w *world) viewOf(ns string, ls []*model.IstioEgressListenerWrapper, docHosts [][]string) listenerView {
+	v := listenerView{map[string]bool{}, map[string]bool{}, map[string]bool{}}
+	for _, l := range ls {
+		for _, s := range l.Services() {
+			v.hosts[string(s.Hostname)] = true
+			for _, a := range s.Attributes.Aliases {
+				v.hosts[string(a.Hostname)] = true
+			}
+		}
+	}
+	for _, hosts := range docHosts {
+		for i := range w.vss {
+			vs := &w.vss[i]
+			if len(vs.hosts) > 0 && vsOnMeshDoc(vs) && w.vsVisibleDoc(vs, ns) && vsImportedDoc(ns, hosts, vs) {
+				for _, h := range vs.hosts {
+					v.vs[h] = true
+				}
+				for h := range w.vsDestHostsFor(vs, ns) {
+					v.dests[h] = true
+				}
+			}
+		}
+	}
+	return v
+}
+
+// egressFor: the egress listeners of the scope an Envoy listener (rds = false) or a route configuration
+// (rds = true) on `port` belongs to. A route configuration is answered from the first egress listener, in
+// Sidecar order, that has no port or has that port (the API requires the port-less listener to be last); an
+// Envoy listener on that port may come from the egress listeners bound to the port and from the port-less ones.
+func egressFor(sc *model.SidecarScope, docs []oracleListener, port int, rds bool) ([]*model.IstioEgressListenerWrapper, [][]string) {
+	var ls []*model.IstioEgressListenerWrapper
+	var hs [][]string
+	for i, l := range sc.EgressListeners {
+		catchAll := l.IstioListener == nil || l.IstioListener.Port == nil
+		bound := !catchAll && int(l.IstioListener.Port.Number) == port
+		if !catchAll && l.IstioListener.Port.Number == 0 {
+			bound = port == 0
+		}
+		if catchAll || bound {
+			ls = append(ls, l)
+			if i < len(docs) {
+				hs = append(hs, docs[i].hosts)
+			}
+			if rds {
+				break
+			}
+		}
+	}
+	return ls, hs
+}
+
+func clusterHost(name string) (string, bool) {
+	f := strings.Split(name, "|")
+	if len(f) != 4 || f[0] != "outbound" {
+		return "", false
+	}
+	return f[3], true
+}
+
+// oraclePerListener inspects, per Envoy listener / route configuration and against the egress listener it
+// belongs to: the route virtual hosts and domains, the clusters the routes and the tcp_proxy filters refer
+// to, and the SNI names of the filter chain matches.
+func (w *world) oraclePerListener(p *model.Proxy, ns string, exp *sidecarSpec) string {
+	sc := p.SidecarScope
+	docs := documentedListeners(exp)
+	ok := func(v listenerView, h string) bool { return v.hosts[h] || v.vs[h] || v.dests[h] }
+	// LDS: filter chains
+	ls := configGen.BuildListeners(p, w.ps)
+	for _, l := range ls {
+		sa := l.GetAddress().GetSocketAddress()
+		if sa == nil || l.Name == "virtualOutbound" || l.Name == "virtualInbound" {
+			continue
+		}
+		els, hs := egressFor(sc, docs, int(sa.GetPortValue()), false)
+		view := w.viewOf(ns, els, hs)
+		for _, fc := range l.FilterChains {
+			for _, sni := range fc.GetFilterChainMatch().GetServerNames() {
+				if !ok(view, sni) {
+					return "sni-for-host-outside-listener " + wire.Enc(l.Name+"/"+sni) + " " + ns
+				}
+			}
+			for _, f := range fc.Filters {
+				if f.Name != "envoy.filters.network.tcp_proxy" {
+					continue
+				}
+				tp := &tcpproxy.TcpProxy{}
+				if err := f.GetTypedConfig().UnmarshalTo(tp); err != nil {
+					continue
+				}
+				names := []string{tp.GetCluster()}
+				for _, wc := range tp.GetWeightedClusters().GetClusters() {
+					names = append(names, wc.Name)
+				}
+				for _, n := range names {
+					if h, isOut := clusterHost(n); isOut && !ok(view, h) {
+						return "tcp-filter-cluster-outside-listener " + wire.Enc(l.Name+"/"+n) + " " + ns
+					}
+				}
+			}
+		}
+	}
+	// RDS: virtual hosts, domains, route cluster references
+	names := map[string]bool{}
+	for _, rn := range core.ExtractRoutesFromListeners(ls) {
+		names[rn] = true
+	}
+	var rnames []string
+	for n := range names {
+		rnames = append(rnames, n)
+	}
+	sort.Strings(rnames)
+	raw, _ := configGen.BuildHTTPRoutes(p, &model.PushRequest{Push: w.ps}, rnames)
+	for _, r := range raw {
+		rc := &route.RouteConfiguration{}
+		if err := r.Resource.UnmarshalTo(rc); err != nil {
+			continue
+		}
+		port := 0
+		if i := strings.LastIndex(rc.Name, ":"); i >= 0 {
+			port, _ = strconv.Atoi(rc.Name[i+1:])
+		} else {
+			port, _ = strconv.Atoi(rc.Name)
+		}
+		els, hs := egressFor(sc, docs, port, true)
+		view := w.viewOf(ns, els, hs)
+		for _, vh := range rc.VirtualHosts {
+			if vh.Name == "allow_any" || vh.Name == "block_all" {
+				continue
+			}
+			h := vh.Name
+			if i := strings.LastIndex(h, ":"); i >= 0 {
+				h = h[:i]
+			}
+			if !view.hosts[h] && !view.vs[h] {
+				return "route-vhost-outside-listener " + wire.Enc(rc.Name+"/"+vh.Name) + " " + ns
+			}
+			for _, rt := range vh.Routes {
+				ra := rt.GetRoute()
+				if ra == nil {
+					continue
+				}
+				cl := []string{ra.GetCluster()}
+				for _, wc := range ra.GetWeightedClusters().GetClusters() {
+					cl = append(cl, wc.Name)
+				}
+				for _, mp := range ra.GetRequestMirrorPolicies() {
+					cl = append(cl, mp.GetCluster())
+				}
+				for _, n := range cl {
+					if ch, isOut := clusterHost(n); isOut && !ok(view, ch) {
+						return "route-cluster-outside-listener " + wire.Enc(rc.Name+"/"+n) + " " + ns
+					}
+				}
+			}
+		}
+	}
+	return ""
 }
